@@ -173,3 +173,94 @@ def share_copy_source(fn, out_d, field_pairs):
         if not fn.is_in(lst[0][1], loop):
             return None
     return fn.nodes[loop].get('range')
+
+
+def stream_insertions(fn, stream_d, root=None):
+    """Operands inserted into the ostream local `stream_d` with operator<<, in evaluation (= source) order."""
+    out = []
+
+    def chain(i):
+        """i is a `<<` call: returns True if its leftmost operand is the stream; appends operands left to right."""
+        nd = fn.nodes[i]
+        ks = fn.kids(i)
+        if nd['k'] != 'CXXOperatorCallExpr' or nd.get('op') != '<<' or len(ks) != 3:
+            return False
+        lhs = fn.strip(ks[1])
+        ln = fn.nodes[lhs]
+        if ln['k'] == 'DeclRefExpr' and ln.get('d') == stream_d:
+            out.append(ks[2])
+            return True
+        if ln['k'] == 'CXXOperatorCallExpr' and ln.get('op') == '<<' and chain(lhs):
+            out.append(ks[2])
+            return True
+        return False
+
+    def rec(i):
+        nd = fn.nodes[i]
+        if nd['k'] == 'CXXOperatorCallExpr' and nd.get('op') == '<<':
+            mark = len(out)
+            if chain(i):
+                return
+            del out[mark:]
+        if nd['k'] == 'LambdaExpr':
+            return
+        for c in fn.kids(i):
+            rec(c)
+    rec(fn.body if root is None else root)
+    return out
+
+
+def literal_text(fn, n):
+    """Text of a string / character literal operand, else None."""
+    m = fn.strip(n)
+    nd = fn.nodes[m]
+    if nd['k'] == 'StringLiteral':
+        return nd.get('s', '')
+    if nd['k'] == 'CharacterLiteral':
+        return chr(int(nd['v']))
+    return None
+
+
+def switch_table(fn, sw):
+    """{case constant: [statement nodes of that case up to break]} for a switch statement; 'default' key for default."""
+    table = {}
+    body = fn.nodes[sw].get('body')
+    cur = []
+    labels = []
+
+    def flush():
+        for l in labels:
+            table[l] = list(cur)
+
+    for st in fn.kids(body):
+        node = st
+        new_labels = []
+        while fn.nodes[node]['k'] in ('CaseStmt', 'DefaultStmt'):
+            nd = fn.nodes[node]
+            if nd['k'] == 'CaseStmt':
+                v = None
+                for j in fn.walk(nd['lhs']):
+                    if 'cv' in fn.nodes[j]:
+                        v = int(fn.nodes[j]['cv'])
+                        break
+                new_labels.append(v)
+                node = nd['sub']
+            else:
+                new_labels.append('default')
+                ks = fn.kids(node)
+                node = ks[-1] if ks else node
+                if fn.nodes[node]['k'] == 'DefaultStmt':
+                    break
+        if new_labels:
+            if cur and labels and fn.nodes[cur[-1]]['k'] != 'BreakStmt':
+                pass        # fallthrough: previous labels keep accumulating
+            else:
+                flush()
+                labels, cur = [], []
+            labels = labels + new_labels
+        cur.append(node)
+        if fn.nodes[node]['k'] in ('BreakStmt', 'ReturnStmt'):
+            flush()
+            labels, cur = [], []
+    flush()
+    return table
